@@ -22,6 +22,10 @@ func (lr LineRange) String() string {
 }
 
 func (lr LineRange) Expand() []int {
+	if lr.Last < lr.First {
+		// never ask for a negative capacity: an inverted range (lines counted differently by yaml and by pint) is rendered as its first line
+		return []int{lr.First}
+	}
 	lines := make([]int, 0, lr.Last-lr.First+1)
 	for i := lr.First; i <= lr.Last; i++ {
 		lines = append(lines, i)
